@@ -1477,7 +1477,7 @@ for _fam in (LABELED,):
 
 LEAN_TYPE['vfld'] = 'X → List K'
 DISK = Family(
-    'disk', ['K', 'X', 'A', 'D'], '[Add K] [Sub K] [Mul K] [LT K] [DecidableLT K]', 'DiskPrims',
+    'disk', ['K', 'X', 'A', 'D'], '[Add K] [Sub K] [Mul K] [LT K] [DecidableLT K] [LE K] [DecidableLE K]', 'DiskPrims',
     {
         'const:bool': Prim('bool_dtype', [], 'dtype'),
         'const:float': Prim('float_dtype', [], 'dtype'),
